@@ -189,8 +189,10 @@ func c09Collection(r *an.Run) {
 			if good {
 				// the path comes from scanner.Text() of the same iteration
 				good = false
-				if c, ok := load.Common().Args[1].(*ssa.Call); ok && an.IsCallTo(c, "(*bufio.Scanner).Text") && l.Blocks[c.Block()] {
-					good = true
+				for _, line := range sameLine(load.Common().Args[1]) {
+					if c, ok := line.(*ssa.Call); ok && an.IsCallTo(c, "(*bufio.Scanner).Text", "(*bufio.Scanner).Bytes") && l.Blocks[c.Block()] {
+						good = true
+					}
 				}
 			}
 			r.Check(good, short(f)+"|scanner-order", load.Pos(), "patches of the -P file are loaded line by line in file order")
